@@ -53,6 +53,9 @@ RULES = {
     "route_any_vs_specific": ["route_method_conflict"],
     "route_custom_same": ["route_method_conflict"],
     "route_any_vs_custom": ["route_method_conflict"],
+    # two catch-all-method routes (`allow(any_method, non_standard_methods)` = MethodGuard::Any) on one path and NO
+    # method-specific route there: no guard names a method (seeded change C08-5 only examined named methods)
+    "route_any_vs_any": ["route_method_conflict"],
     "route_param_names": ["route_path_conflict"],
     "route_specificity": ["route_path_conflict"],   # known finding: accepted (matchit priority)
     "path_param_field": ["path_param"],
@@ -719,6 +722,11 @@ def _plant(rng, spec, t, place, rule, info, M):
             h1 = xcomp(spec, "handler", methods=["QUERY"] if rng.random() < 0.6 or rule == "route_any_vs_custom" else ["QUERY", "GET"], path=rel2, ins=[])
             t.add(rng, s2, xreg(h1))
             hx = xcomp(spec, "handler", methods=["QUERY"] if rule == "route_custom_same" else "any+", path=rel2, ins=[])
+        elif rule == "route_any_vs_any":
+            rel2 = rel + "/w"
+            h1 = xcomp(spec, "handler", methods="any+", path=rel2, ins=[])
+            t.add(rng, s2, xreg(h1))
+            hx = xcomp(spec, "handler", methods="any+", path=rel2, ins=[])
         elif rule == "route_param_names":
             h1 = xcomp(spec, "handler", methods=[h["method"]], path=rel + "/{a}", ins=[])
             t.add(rng, s2, xreg(h1))
